@@ -1,5 +1,7 @@
 import BpProofs.SrcTiePyDict
 import BpProofs.SrcTieFromPyDict
+import BpProofs.SrcTiePyDictRt
+import BpProofs.JsonRtMain
 import BpProofs.Props.C04
 import BpProofs.Props.C04Src
 /-
@@ -164,6 +166,23 @@ theorem src_from_pydict_unselected_message_member (S : Schema) (c : Nat) (st : M
     | (rw [fromPyField]
        · simp [hm, hg]
        all_goals (intros; contradiction))
+
+/-- **the round trip with both top-level loops as written**: for every schema inside `pyDictOk` and every value
+    inside the guards of `from_pydict_to_pydict` (Props/C14PyDictRt.lean) whose dict slots have distinct keys, the
+    field loop of `to_pydict` as written (`srcLoopP`) returns a dict `kvs` without raising, and the key loop of
+    `from_pydict` as written (`srcKeysLoop`), run on that dict and a fresh instance (`Cls()` with
+    `_serialized_on_wire = True`), returns a message `m'` with `m ≈ m'` (`DEqv`) and the same bytes.  All guards of
+    both ties are discharged along the run.  (The recursive calls inside the two loop bodies are the model's.) -/
+theorem src_from_pydict_to_pydict (S : Schema) (cs : KeyCase) (c : Nat) (sl : List Val) (ow : Bool) (unk : Bytes)
+    (cur : List (Option Nat)) (hok : pyDictOk S cs = true) (hgroups : groupsOk S = true)
+    (hwt : wellTyped' S (.msg c sl ow unk cur) = true) (hsel : selOk S (.msg c sl ow unk cur) = true)
+    (hkeys : dictKeysOk (.msg c sl ow unk cur) = true) (hkd : ∀ v ∈ sl, keysDistinct v = true) :
+    ∃ kvs m', srcLoopP S cs false (fieldsOf S c) cur 0 sl [] = .ok kvs ∧
+      (srcKeysLoop S c (freshOn S c) (kvs.map (·.1)) (kvs.map (·.2))).bind (fun st => .ok (st.toVal c)) = .ok m' ∧
+      DEqv S (.msg c sl ow unk cur) m' ∧ dumpVal S m' = dumpVal S (.msg c sl ow unk cur) := by
+  obtain ⟨kvs, h1, h2⟩ := src_loops_roundtrip S cs hok hgroups c sl ow unk cur hwt hsel hkeys hkd
+  obtain ⟨_, b, d⟩ := roundtrip_class S [] cs ⟨(pyDictOk_schema S cs hok).1, hgroups⟩ c sl ow unk cur hwt hsel
+  exact ⟨kvs, _, h1, h2, b, d⟩
 
 /-! ### to_json / from_json -/
 
